@@ -619,7 +619,9 @@ def runCall (fl : Flags) (b : Block) (conv : Bool := false) : Res :=
       props := [("C06", if runs.any (fun r => isPanicRes (resOf r)) then "FAIL:panic_on_malformed_option" else "ok"),
                 -- C10: with a malformed option the call on the identity function fails, so Convert must fail (runs
                 -- alternate between the two)
-                ("C10", if conv ∧ runsX.any (fun r => !r.2.isEmpty ∧ isOkRes (resOf r.1)) then "FAIL:Convert_succeeds_although_the_call_on_the_identity_function_fails_on_a_malformed_option" else "ok")],
+                ("C10", if conv ∧ runsX.any (fun r => !r.2.isEmpty ∧ isOkRes (resOf r.1)) then "FAIL:Convert_succeeds_although_the_call_on_the_identity_function_fails_on_a_malformed_option" else "ok"),
+                -- C17: resolution itself fails here (the options cannot even be assembled): no result, an error
+                ("C17", if runs.any (fun r => isOkRes (resOf r)) then "FAIL:a_malformed_option_but_a_result_without_error_was_returned" else "ok")],
       stats := ["outcome=builderr"] }
   | .ok bld =>
   -- converter generators: invoked for every named value / typed output present once inputs and converters
@@ -633,7 +635,9 @@ def runCall (fl : Flags) (b : Block) (conv : Bool := false) : Res :=
     { conform := (if ok then none else some s!"failing_generator_expected_error_got_{noSpace (" ".intercalate (resOf (runs.headD [])))}").or
         (giConform sc bld snap true rawRuns),
       propNA := true,
-      props := [("C06", if runs.any (fun r => isPanicRes (resOf r)) then "FAIL:panic_when_a_converter_generator_reports_an_error" else "ok")],
+      props := [("C06", if runs.any (fun r => isPanicRes (resOf r)) then "FAIL:panic_when_a_converter_generator_reports_an_error" else "ok"),
+                -- C17: a generator's error makes resolution itself fail: no result, an error — whatever the target needs
+                ("C17", if runs.any (fun r => isOkRes (resOf r)) then "FAIL:a_converter_generator_failed_but_a_result_without_error_was_returned" else "ok")],
       stats := ["outcome=generr", "execs=0", s!"convs={bld.convs.length}", "gens=err"] }
   | some bldX =>
   let giAll := giConform sc bld snap false rawRuns
@@ -792,7 +796,12 @@ def runCall (fl : Flags) (b : Block) (conv : Bool := false) : Res :=
          match runs.find? (fun r => isPanicRes (resOf r)), outs.find? (fun o => match o.1.outcome with | .ok _ => true | _ => false) with
          | some r, some _ => s!"FAIL:redefined_function_{noSpace (showImplRes (resOf r))}_although_the_call_succeeds"
          | _, _ => "ok")
-    else "na"
+    else
+      -- any call: when resolution itself fails (the model, replaying this very trace, ends unsatisfied) the result has
+      -- length 0 and carries an error
+      (match outs.find? (fun o => (match o.1.outcome with | .unsat _ _ => true | .missingArg => true | _ => false) && isOkRes (resOf o.2.2)) with
+       | some _ => "FAIL:resolution_fails_but_a_result_without_error_was_returned"
+       | none => "ok")
   -- C16 on the redefined function: the values it is called with come after the options given to Redefine, so for a
   -- key given at both times the later one is injected (the replay applies the options in that order)
   let c16 := if fam = "redefcall" ∧ !runs.any (fun r => isPanicRes (resOf r)) then
